@@ -68,57 +68,7 @@ def run(eng, ctx):
     nd3 = TR.dispatch(eng, ctx, "C15.D3")
 
     # ---------------- D4 stub path
-    ctx.rule("C15.D4", "unknown identity: the driver reaches `return` through the stub only, without raising; the stub stores the "
-                       "message number attribute and the unknown flag only; serialize has no branch on that flag")
-    drv = eng.repo.func(eng.attributes_driver)
-    stub = eng.repo.func(eng.stub_routine)
-    sel = eng.repo.func(eng.dict_selector)
-    ctx.touch(func=drv.qualname)
-    ctx.touch(func=stub.qualname)
-    se = eng.symeval(drv.qualname)
-    # effects guarded by "<selector result> is None"
-    def none_guard(g):
-        for c, pol in g:
-            if c[0] == "cmp" and c[1] in ("is", "==") and is_const(c[3]) and c[3][1] is None and pol and c[2][0] == "call" and is_self_call(c[2], sel.name):
-                return True
-            if c[0] == "cmp" and c[1] in ("is not", "!=") and is_const(c[3]) and c[3][1] is None and not pol and c[2][0] == "call" and is_self_call(c[2], sel.name):
-                return True
-        return False
-
-    under = [e for e in se.effects if none_guard(e.guards)]
-    calls = [e for e in under if e.kind == "call"]
-    stub_calls = [e for e in calls if is_self_call(e.term, stub.name)]
-    rets = [e for e in under if e.kind == "return"]
-    raises = [e for e in under if e.kind == "raise"]
-    ctx.check(len(stub_calls) == 1, "C15.D4", drv.qualname, "stub invoked when no definition exists", expected="exactly one call of the stub routine under `definition is None`",
-              found=f"{len(stub_calls)} call(s)", **eng.loc(drv, drv.node))
-    ctx.check(len(rets) >= 1 and not raises, "C15.D4", drv.qualname, "stub path returns normally", expected="return, no raise",
-              found=f"{len(rets)} return(s), {len(raises)} raise(s)", **eng.loc(drv, (raises or rets or [se.effects[0]])[0].node))
-    other = [e for e in calls if not is_self_call(e.term, stub.name)]
-    ctx.check(not other, "C15.D4", drv.qualname, "nothing else on the stub path", expected="only the stub call", found=", ".join(show(e.term)[:40] for e in other) or "-",
-              **eng.loc(drv, (other or stub_calls or [se.effects[0]])[0].node))
-    ss = eng.symeval(stub.qualname)
-    for e in ss.effects:
-        loc = eng.loc(stub, e.node)
-        if e.kind == "raise":
-            ctx.bad("C15.D4", stub.qualname, norm(e.node), expected="stub never raises", found="raise", **loc)
-        elif e.kind == "store" and e.target and e.target[0] == "self":
-            ctx.check(e.target[1].startswith("_") and is_const(e.term), "C15.D4", stub.qualname, norm(e.node), expected="private constant flag", found=show(e.term)[:60], **loc)
-        elif e.kind == "call" and e.term[2] == ("builtin", "setattr"):
-            a = e.term[3]
-            lo, hi = fr["msgnum_bits"]
-            first_key = "DF002"
-            ok = len(a) == 3 and a[0] == ("self",) and is_const(a[1]) and a[1][1] == first_key and a[2] == ("field", "identity")
-            ctx.check(ok, "C15.D4", stub.qualname, norm(e.node), expected="setattr(self, 'DF002', self.identity)", found=show(e.term)[:80], **loc)
-        elif e.kind == "call":
-            ctx.bad("C15.D4", stub.qualname, norm(e.node), expected="no other call in the stub", found=show(e.term)[:80], **loc)
-    flags = {e.target[1] for e in ss.effects if e.kind == "store" and e.target and e.target[0] == "self"}
-    ser = eng.repo.func(f"{eng.message_cls}.serialize")
-    sser = eng.symeval(ser.qualname)
-    for e in sser.effects:
-        if e.kind == "return":
-            bad = mentions(e.term, lambda s: s[0] == "ite" or (s[0] == "field" and s[1] in flags)) or bool(e.guards)
-            ctx.check(not bad, "C15.D4", ser.qualname, "serialize independent of the unknown flag", expected="no branch on the flag", found=show(e.term)[:100], **eng.loc(ser, e.node))
+    SH.stub_path(eng, ctx, "C15.D4")
 
     # ---------------- D5 MSM predicate over the finite universe
     ctx.rule("C15.D5", "the MSM predicate is True exactly on message-id keys whose description contains 'MSM'; those keys lie in 1070..1229 "
